@@ -2,6 +2,7 @@ import DigModel.Proofs.DfsTotal
 import DigModel.Proofs.Termination
 import DigModel.Proofs.Views
 import DigModel.Proofs.GhBoundApi
+import DigModel.Proofs.GraphMeaningThm
 /-
   C05 — Cycle safety, graph part (internal/graph/graph.go, full strength, any graph size):
 
@@ -32,8 +33,23 @@ import DigModel.Proofs.GhBoundApi
   * `C05_invoke_cycle_is_real` : likewise for the check made by Invoke on a scope that is not verified yet;
   * `C05_invoke_runs_only_on_acyclic_view` : an Invoke that gets as far as resolving anything works on a scope whose
     graph has no closed walk.
-  That the holder graph coincides with the declarative view graph (orders = positions, `GhInv`) is not proved;
-  it is carried by the correspondence check (cycle-heavy profile, K-graph), see DESIGN.md §7 C05.
+  What the holder graph *means* (`Proofs/Tree.lean`, `GraphMeaning*.lean`): in every reachable container (`GT`:
+  `GM0` ∧ `TreeInv`, through Provide and its roll-back, Decorate, Scope's copy of the parent's holder, Invoke's
+  parse, the resolver) the order recorded for a node in a scope points at that node in the scope's holder, and every
+  constructor that provides something visible from a scope — in the scope or any ancestor, registered before or
+  after the scope was created, exported or not — has its node in that scope's holder (this uses: whoever has the
+  target on its path to the root is reached by the walk over the target's subtree, `mem_subscopes_of_mem_ancestors`).
+  Hence a dependency between constructors as seen from a scope *is* an edge of that scope's holder graph, and
+  * `C05_dependency_cycle_is_found` (**whole programs**): if in the container a program leaves behind, as seen from
+    a scope `s`, constructor `n₀` depends on `n₁`, …, `n_r` on `n₀` — through plain, named or optional parameters at
+    any depth of parameter objects, each provider visible from `s`, i.e. under the most permissive reading in which
+    a parameter depends on *every* visible provider of its key — then `graph.IsAcyclic` of `s`'s holder answers
+    `cycle`; so a Provide that closes such a cycle in the target or any descendant is rejected, and an Invoke
+    from an unverified scope that sees one fails before anything runs;
+  * `C05_acyclic_answer_excludes_dependency_cycles`: conversely an "acyclic" answer for `s` means there is no such cycle.
+  Edges through value groups are part of the holder graph (`edgesFrom`) and of the graph-level theorems above but
+  not yet of the constructor-level reading `DependsOn`; the converse direction (every edge of the holder is a
+  dependency) is likewise left to the correspondence check (cycle-heavy profile, K-graph), see DESIGN.md §7 C05.
 -/
 namespace Dig.C05
 open Dfs
@@ -128,6 +144,32 @@ theorem C05_check_decides (p : Program) (s : Nat) :
 /-- no history crashes the process inside dig: no operation of any program ends in a panic of dig's own -/
 theorem C05_no_crash (p : Program) : ∀ r ∈ (runProgram p).2, r.v ≠ .panicDig := program_never_panics p
 
+theorem C05_dependency_cycle_is_found (p : Program) (s : Nat) (hs : s < (runProgram p).1.scopes.length) (a : Nat) (l : List Nat)
+    (hl : l ≠ []) (hin : ∀ n ∈ a :: l, GNode.ctor n ∈ ((runProgram p).1.scope s).gh)
+    (hc : DepChain (runProgram p).1 s (a :: l)) (hclosed : (a :: l).getLast (by simp) = a) :
+    ∃ path, checkAcyclic (runProgram p).1 s = .cycle path :=
+  cycle_is_found (gt_program p).gm (program_safeInv p).ob s hs a l hl hin hc hclosed
+
+theorem C05_acyclic_answer_excludes_dependency_cycles (p : Program) (s : Nat) (hs : s < (runProgram p).1.scopes.length)
+    (hacyc : checkAcyclic (runProgram p).1 s = .acyclic) (a : Nat) (l : List Nat) (hl : l ≠ [])
+    (hin : ∀ n ∈ a :: l, GNode.ctor n ∈ ((runProgram p).1.scope s).gh) (hc : DepChain (runProgram p).1 s (a :: l)) :
+    (a :: l).getLast (by simp) ≠ a := by
+  intro hclosed
+  obtain ⟨path, hp⟩ := C05_dependency_cycle_is_found p s hs a l hl hin hc hclosed
+  rw [hp] at hacyc; cases hacyc
+
+/-- every constructor visible from a scope is a node of that scope's holder (whole programs) -/
+theorem C05_visible_providers_are_nodes (p : Program) (s : Nat) (hs : s < (runProgram p).1.scopes.length) (k : Key) (m : Nat)
+    (hm : m ∈ (runProgram p).1.allProviders s k) : GNode.ctor m ∈ ((runProgram p).1.scope s).gh :=
+  (gt_program p).gm.prov s k m hs hm
+
+/-- non-vacuity (a test): a self-dependency is a chain that closes -/
+example (st : St) (s n : Nat) (h : DependsOn st s n n) : DepChain st s [n, n] ∧ [n, n].getLast (by simp) = n :=
+  ⟨⟨h, trivial⟩, rfl⟩
+
+#print axioms C05_dependency_cycle_is_found
+#print axioms C05_acyclic_answer_excludes_dependency_cycles
+#print axioms C05_visible_providers_are_nodes
 #print axioms C05_check_decides
 #print axioms C05_no_crash
 #print axioms C05_dfs_sound
